@@ -37,6 +37,65 @@ class Nondeterminism(Exception):
     """A reported failure did not reproduce / a replayed prefix diverged."""
 
 
+class Hang(Exception):
+    """Raised inside the code under test when a case makes no progress for
+    HANG_SECONDS: 'the call terminates' is part of what is checked."""
+
+
+HANG_SECONDS = 30
+_CURRENT = [None]
+_WATCHDOG = [None]
+
+
+def _on_hang(signum, frame):
+    raise Hang("no progress for %d s (call does not terminate?)" % HANG_SECONDS)
+
+
+def start_watchdog():
+    """One daemon thread per worker process: if the current Shard's case
+    counter stops moving for HANG_SECONDS, interrupt the main thread."""
+    import signal
+    import threading
+    if _WATCHDOG[0] is not None:
+        return
+    signal.signal(signal.SIGUSR1, _on_hang)
+    main_id = threading.main_thread().ident
+
+    def loop():
+        last, since = None, time.time()
+        while True:
+            time.sleep(1.0)
+            sh = _CURRENT[0]
+            cur = (id(sh), sh.n if sh is not None else -1)
+            if sh is None or cur != last:
+                last, since = cur, time.time()
+            elif time.time() - since > HANG_SECONDS:
+                since = time.time()
+                signal.pthread_kill(main_id, signal.SIGUSR1)
+
+    t = threading.Thread(target=loop, daemon=True)
+    t.start()
+    _WATCHDOG[0] = t
+
+
+class hang_guard(object):
+    """with hang_guard(): single call under an alarm (used for replays)."""
+
+    def __init__(self, seconds=HANG_SECONDS):
+        self.seconds = seconds
+
+    def __enter__(self):
+        import signal
+        self.old = signal.signal(signal.SIGALRM, _on_hang)
+        signal.alarm(self.seconds)
+
+    def __exit__(self, *a):
+        import signal
+        signal.alarm(0)
+        signal.signal(signal.SIGALRM, self.old)
+        return False
+
+
 class Ctx(object):
     def __init__(self, prop, tier, seed, jobs):
         self.prop = prop
@@ -76,6 +135,7 @@ class Shard(object):
         self.nviol = 0      # total violations seen (uncapped count)
         self.samples = []
         self.extra = {}
+        _CURRENT[0] = self
 
     def violation(self, check, cls, case, expected=None, observed=None):
         self.nviol += 1
@@ -156,7 +216,10 @@ class Report(object):
 def _worker(job):
     func, part, arg = job
     try:
-        return part, func(arg).pack(), None
+        start_watchdog()
+        res = func(arg).pack()
+        _CURRENT[0] = None
+        return part, res, None
     except Exception:
         return part, None, traceback.format_exc()
 
@@ -269,7 +332,8 @@ def finish(ctx, report, level, replay_fn=None):
     for v in fresh:
         if replay_fn is not None:
             case = unjson(jsonable(v["case"]))
-            again = replay_fn(v["check"], case)
+            with hang_guard():
+                again = replay_fn(v["check"], case)
             if again is None:
                 raise Nondeterminism(
                     "violation did not reproduce from its replay record: %r"
